@@ -221,6 +221,13 @@ def exec_test(runner, t, layer):
             runner.ss.add_lease(U.si_bytes(si), rs, cs)
         except NoSpace:
             pass
+    elif t[0] == "RL":
+        _, si, secret_id = t
+        rs, cs = U.secrets(secret_id)
+        try:
+            runner.ss.renew_lease(U.si_bytes(si), rs)
+        except IndexError:
+            pass
     else:
         runner.op(t)
 
@@ -232,6 +239,11 @@ def test_line(runner, t):
         rec = U.lease_record(runner.clock, secret_id, owner_num=1)
         order = U.listdir_order(runner.ss, si)
         return "AL:%d:%s:%d:%s" % (si, hx(rec), free, U.show_list(str(x) for x in order))
+    if t[0] == "RL":
+        _, si, secret_id = t
+        rec = U.lease_record(runner.clock, secret_id, owner_num=1)
+        order = U.listdir_order(runner.ss, si)
+        return "RL:%d:%s:%s" % (si, hx(rec), U.show_list(str(x) for x in order))
     return None
 
 
@@ -291,13 +303,13 @@ def monitor(ctx, case, t, full, res, n):
     """The C29 statement on the restarted server after a kill at primitive index n."""
     before, after = res["before"], res["after"]
     trace = full["trace"]
-    lease_only = t[0] == "AL" or (t[0] == "A" and not any(x.startswith("create:") for x in trace))
+    lease_only = t[0] in ("AL", "RL") or (t[0] == "A" and not any(x.startswith("create:") for x in trace))
     closing = None
     if t[0] in ("W", "C", "X") and t[1] in full["ref_inprog"]:
         closing = full["ref_inprog"][t[1]]
     for key, (data, leases) in before.items():
         a = after.get(key)
-        being_written = (t[0] in ("A", "AL") and key[0] == t[1])
+        being_written = (t[0] in ("A", "AL", "RL") and key[0] == t[1])
         if a is None:
             ctx.violation("share %s disappeared after a crash in %s" % (key, t[0]), case, "c29-share-lost", {"n": n})
             continue
@@ -332,12 +344,14 @@ def gen_case(rng):
     rs = rng.choice([0, 0, 10])
     hist = U.gen_history(rng, rng.choice([2, 4, 8, 12]), sizes=(0, 1, 4, 10), n_si=2, shnums=(0, 1, 2))
     hist = [o for o in hist if o[0] not in ("D", "S", "L", "R")]
-    kind = rng.choice(["A", "A", "AL", "AL", "W?", "C?", "C?", "X?"])
+    kind = rng.choice(["A", "A", "AL", "AL", "RL", "W?", "C?", "C?", "X?"])
     if kind == "A":
         t = ["A", rng.randrange(2), sorted(set(rng.choice((0, 1, 2, 3)) for _ in range(rng.choice([1, 2, 3])))),
              rng.choice((0, 1, 4, 10)), rng.randrange(4), rng.choice([10 ** 9, 10 ** 9, 100, 71])]
     elif kind == "AL":
         t = ["AL", rng.randrange(2), rng.randrange(4), rng.choice([10 ** 9, 10 ** 9, 100, 71])]
+    elif kind == "RL":
+        t = ["RL", rng.randrange(2), rng.randrange(4)]
     else:
         t = [kind, rng.random(), rng.random(), rng.random(), rng.random()]
     return ro, rs, hist, t
@@ -364,6 +378,104 @@ CORPUS += [
     # share must hold every written byte, its lease, and the allocated length)
     (False, 0, [["A", 1, [0], 8, 0, 10 ** 9], ["W", 0, 0, "0102030405"], ["W", 0, 5, "060708"]], ["C", 0]),
 ]
+
+
+def _share_with_leases(n, size=6):
+    """history: one completed share of SI 0 holding leases of secrets 0..n-1 (added by later allocate_buckets
+    calls of other holders), then the clock advances so that a renewal changes the expiry"""
+    h = [["A", 0, [0], size, 0, 10 ** 9], ["W", 0, 0, "a1a2a3a4a5a6"[:2 * size]], ["C", 0]]
+    for k in range(1, n):
+        h += [["T", 7], ["A", 0, [0], size, k, 10 ** 9]]
+    return h + [["T", 1000]]
+
+
+# seeded C29-d: renewal with a changed expiry is ONE in-place record write; enumerate every low-level event
+# of a renewal on shares with 1, 2 and 3 leases, reached as renew_lease, as add_lease with secrets already on
+# the share, and as a repeated allocate_buckets by an existing holder, for the first / middle / last lease
+CORPUS += [(False, 0, _share_with_leases(n), t)
+           for n in (1, 2, 3)
+           for t in ([["RL", 0, k] for k in range(n)] + [["AL", 0, n - 1, 10 ** 9], ["A", 0, [0], 6, 0, 10 ** 9]])]
+# two shares of the SI, both renewed by one call
+CORPUS += [(False, 0, [["A", 1, [0, 1], 3, 0, 10 ** 9], ["C", 0], ["C", 1], ["T", 5], ["A", 1, [0, 1], 3, 1, 10 ** 9], ["T", 50]], t)
+           for t in (["RL", 1, 0], ["RL", 1, 1], ["AL", 1, 0, 10 ** 9])]
+
+# NOT a C29 violation: the share add_lease operates on IS being written (its lease area); C29 promises that its
+# DATA is unchanged (checked below) and that OTHER shares keep data and leases.  That its existing leases cannot
+# be enumerated after a crash between the count write and the record write is recorded as an observation only.
+OBS_MUT = "observation:mutable-extra-lease-unreadable-after-crash"
+
+
+def mutable_probe(ctx, n_leases):
+    """Real MutableShareFile with `n_leases` leases (>= 4: every header slot taken), then add_lease with a
+    new secret killed at every primitive write; compares the writes and the post-restart state with the
+    model (driver line c29m) and evaluates the statement: a lease-only operation never changes the share DATA.
+    (Whether the leases of the operated-on share are still enumerable is compared with the model and counted as an
+    observation, not demanded: C29 does not promise it for the share being written.)"""
+    import builtins
+    from twisted.internet.task import Clock
+    from allmydata.storage import mutable as smut
+    base = U.tmpdir("c29mut")
+    try:
+        ss = U.make_server(base, Clock())
+        si = U.si_bytes(0)
+
+        def sec(i):
+            return (b"W" * 32, b"R%031d" % i, b"C%031d" % i)
+        ss.slot_testv_and_readv_and_writev(si, sec(0), {0: ([], [(0, b"mutable-data-0123456789")], None)}, [])
+        for i in range(1, n_leases):
+            ss.add_lease(si, sec(i)[1], sec(i)[2])
+        fn = [f for _, f in ss.get_shares(si)][0]
+        before_file = builtins.open(fn, "rb").read()
+        before_data = ss.slot_readv(si, [0], [(0, 1000)])
+        before_leases = sorted(l.to_mutable_data() for l in ss.get_slot_leases(si))
+        results, trace_full = [], None
+        for kill in (None, 0, 1, 2):
+            d2 = base + "-k"
+            shutil.copytree(base, d2)
+            try:
+                ss2 = U.make_server(d2, Clock())
+                layer = FaultLayer(d2, {}, kill)
+                layer.name = lambda p: "F.0.0"
+
+                def fopen(path, mode="r", *a, **kw):
+                    if mode in ("wb", "rb+"):
+                        return FaultFile(layer, path, mode)
+                    return builtins.open(path, mode, *a, **kw)
+                smut.open = fopen
+                try:
+                    try:
+                        ss2.add_lease(si, sec(99)[1], sec(99)[2])
+                    except Crash:
+                        pass
+                finally:
+                    del smut.open
+                if kill is None:
+                    trace_full = list(layer.trace)
+                    continue
+                ss3 = U.make_server(d2, Clock())
+                data_ok = ss3.slot_readv(si, [0], [(0, 1000)]) == before_data
+                try:
+                    leases = sorted(l.to_mutable_data() for l in ss3.get_slot_leases(si))
+                    readable = True
+                except Exception as e:   # struct.error: the counted record is missing
+                    leases, readable = None, False
+                results.append((kill, data_ok, readable))
+                case = {"mutable_probe": n_leases, "kill": kill}
+                ctx.case(("mut", n_leases, kill) if 0 < kill < len(trace_full) else None)
+                ctx.count("mutable-probe")
+                if not data_ok:
+                    ctx.violation("mutable add_lease changed the share data after a crash", case, "c29-lease-op-changed-data")
+                if not readable or any(l not in leases for l in before_leases):
+                    ctx.count(OBS_MUT)
+            finally:
+                shutil.rmtree(d2, ignore_errors=True)
+        rec = trace_full[-1].split(":")[3] if trace_full else "-"
+        line = "c29m %s %s" % (hx(before_file), rec)
+        impl = "ops=%s|r=%s|d=%s" % (";".join(trace_full), ",".join("1" if r[2] else "0" for r in results),
+                                     ",".join("1" if r[1] else "0" for r in results))
+        return line, impl
+    finally:
+        shutil.rmtree(base, ignore_errors=True)
 
 
 def run(ctx):
@@ -403,6 +515,13 @@ def run(ctx):
         lines.append((full["head"] + " " + " ".join(full["lines"])).strip() + " ! " + full["tok"])
         impl.append("ops=" + (";".join(full["trace"]) or "-") + "|" + "|".join(dumps))
         recs.append(case)
+    if not ctx.replay:
+        # mutable containers: the extra-lease append of add_lease (fixed corpus: 4, 5 and 7 leases)
+        for n_leases in (4, 5, 7):
+            l, i = mutable_probe(ctx, n_leases)
+            lines.append(l)
+            impl.append(i)
+            recs.append({"mutable_probe": n_leases})
     model = ctx.model(lines)
     ctx.compare("primitive file operations of the operation under test and surviving final containers at every crash index",
                 recs, impl, model)
